@@ -11,6 +11,19 @@ MATCHERS = {}
 
 def run(res: C.Result, deep: bool):
     MP.run_for(PROP, res, deep, MATCHERS)
+    if deep:
+        # the fake socket layer against real TCP: sequential scenarios through a real manager on localhost
+        from .. import mgr_tcp as T
+        try:
+            r = T.compare()
+        except Exception as e:  # noqa: BLE001  no network namespace / no free port: reported, not fatal
+            res.extra["tcp_smoke"] = f"skipped: {type(e).__name__}: {e}"
+            return
+        res.extra["tcp_smoke"] = {k: r[k] for k in ("runs", "agree")} | ({"skipped": r["skipped"]} if r.get("skipped") else {})
+        res.assumptions.append("fakes.py socket/select contract; validated against real localhost TCP on %d sequential "
+                               "scenarios (%d agree)" % (r["runs"], r["agree"]))
+        for d in r["diffs"][:3]:
+            res.corr_diffs.append({"name": "corr:fakes/tcp", "diff": str(d)[:600], "case": {"tcp_scenario": d.get("scenario")}})
 
 
 def replay(body):
